@@ -1,6 +1,6 @@
 use crate::akamai::AkamaiFingerprint;
 use crate::akamai_extractor::extract_akamai_fingerprint;
-use crate::http2_parser::{Http2ParseError, Http2Parser, HTTP2_CONNECTION_PREFACE};
+use crate::http2_parser::{Http2Frame, Http2ParseError, Http2Parser, HTTP2_CONNECTION_PREFACE};
 
 /// HTTP/2 fingerprint extractor with incremental parsing support
 ///
@@ -26,6 +26,9 @@ pub struct Http2FingerprintExtractor {
     parser: Http2Parser<'static>,
     buffer: Vec<u8>,
     parsed_offset: usize,
+    /// Frames parsed by earlier calls that did not yet yield a fingerprint
+    /// (e.g. a WINDOW_UPDATE or PRIORITY frame delivered before the SETTINGS frame)
+    frames: Vec<Http2Frame>,
     fingerprint: Option<AkamaiFingerprint>,
 }
 
@@ -40,6 +43,7 @@ impl Http2FingerprintExtractor {
             parser: Http2Parser::new(),
             buffer: Vec::with_capacity(64 * 1024),
             parsed_offset: 0,
+            frames: Vec::new(),
             fingerprint: None,
         }
     }
@@ -93,7 +97,10 @@ impl Http2FingerprintExtractor {
                         // Update parsed_offset based on actual bytes consumed
                         self.parsed_offset = start_offset.saturating_add(bytes_consumed);
 
-                        if let Some(fingerprint) = extract_akamai_fingerprint(&frames) {
+                        // the fingerprint covers every frame received so far, not only the
+                        // ones that arrived in this chunk
+                        self.frames.extend(frames);
+                        if let Some(fingerprint) = extract_akamai_fingerprint(&self.frames) {
                             self.fingerprint = Some(fingerprint.clone());
                             return Ok(Some(fingerprint));
                         }
@@ -134,6 +141,7 @@ impl Http2FingerprintExtractor {
     pub fn reset(&mut self) {
         self.buffer.clear();
         self.parsed_offset = 0;
+        self.frames.clear();
         self.fingerprint = None;
     }
 }
